@@ -48,7 +48,7 @@ def teardown(ctx):
 
 
 def cases(ctx):
-    n = 1000 if ctx.tier == 'quick' else 30000
+    n = 1000 if ctx.tier == 'quick' else 12000
     for i in range(n):
         yield {'kind': 'gen', 'i': i}
     for i in range(3 if ctx.tier == 'quick' else 30):
@@ -223,7 +223,7 @@ def run_gen(ctx, case):
     rcls = ['none', 'partial', 'full', 'duplicated'][int(rng.integers(0, 4))]
     restr = gen_restr(rng, rcls, n1, n2)
     ignore_h = bool(rng.random() < 0.5)
-    factor = int(rng.choice([1, 5, 50], p=[.5, .4, .1])) if ctx.tier == 'thorough' else int(rng.choice([1, 5, 20], p=[.7, .28, .02]))
+    factor = int(rng.choice([1, 5, 50], p=[.55, .42, .03])) if ctx.tier == 'thorough' else int(rng.choice([1, 5, 20], p=[.7, .28, .02]))
     seed = ctx.libseed('gen', i)
     w = {'n_start': n1, 'n_end': n2, 'edges_start': es, 'edges_end': ee, 'types': types, 'restraints': restr,
          'ignore_hydrogens': ignore_h, 'steps_factor': factor, 'seed': seed,
